@@ -316,7 +316,12 @@ def helper_rows():
     row("filter", lambda A: F.filter(F.gt(A("p", 1))), L, lambda x, a: [v for v in x if v > a["p"]], ("p",))
     row("reduce", lambda A: F.reduce(red), [[1, 2, 3], [7]], lambda x, a: functools.reduce(red, x))
     row("reduce", lambda A: F.reduce(red, A("p", 0)), [[1, 2, 3], []], lambda x, a: functools.reduce(red, x, a["p"]), ("p",))
-    row("into", lambda A: F.into(pair), [(1, 2), [3, 4], {"a": 5, "b": 6}], lambda x, a: pair(**x) if isinstance(x, dict) else pair(*x))
+    from collections.abc import Mapping as _Mapping
+    from types import MappingProxyType as _MPT
+
+    # any Mapping is keyword arguments (the mapping helpers themselves return read-only mappings)
+    row("into", lambda A: F.into(pair), [(1, 2), [3, 4], {"a": 5, "b": 6}, _MPT({"a": 7, "b": 8}), _MPT({"b": 1, "a": 2})],
+        lambda x, a: pair(**x) if isinstance(x, _Mapping) else pair(*x))
     row("flatten", lambda A: F.flatten, [[[1], [2, 3]], [[], []]], lambda x, a: [v for s in x for v in s])
     row("flatmap", lambda A: F.flatmap(dup), [[1, 2], []], lambda x, a: [v for e in x for v in dup(e)])
     D = [{"a": 1, "b": 2}, {}]
@@ -417,6 +422,13 @@ def public_helpers():
     return sorted(out)
 
 
+def _cp(x):
+    try:
+        return copy.deepcopy(x)
+    except TypeError:  # read-only mapping views cannot be copied (and cannot be modified either)
+        return x
+
+
 def norm_result(v):
     from types import MappingProxyType
 
@@ -461,7 +473,7 @@ def check_helper(name, res):
                     res["evaluations"] += 1
                     got = observe(None, lambda: norm_result((Value(x) >> step).evaluate(copy.deepcopy(o))))
                     try:
-                        want = ("ok", norm_result(py(copy.deepcopy(x) if not isinstance(x, NC) else x, setting)))
+                        want = ("ok", norm_result(py(_cp(x) if not isinstance(x, NC) else x, setting)))
                     except Exception as e:  # noqa
                         want = ("fail", type(e).__name__)
                     if want[0] == "ok" and want[1] == "<fail>":
